@@ -82,6 +82,7 @@ type c11OpenJ struct {
 }
 
 const c11NumVb = 16
+const c11BusTotal, c11BusNum = 2, 1
 
 func c11Child(raw json.RawMessage) any {
 	var sc c11Scenario
@@ -117,7 +118,30 @@ func c11Child(raw json.RawMessage) any {
 	first := sc.Bursts[0][0]
 	_ = first
 	curLo, curHi := c16Range(c11NumVb, 1, 1)
-	if sc.Mode == "bus" {
+	if sc.Mode == "busdelay" {
+		// the real Dcp with a membership that keeps its numbers (static 1 of 2): notifications are publications on the
+		// event bus (what the Couchbase / Kubernetes mechanisms and PUT /membership/info do), the configured delay applies
+		cfg.Dcp.Group.Membership.TotalMembers, cfg.Dcp.Group.Membership.MemberNumber = c11BusTotal, c11BusNum
+		curLo, curHi = c16Range(c11NumVb, c11BusTotal, c11BusNum)
+		d = godcp.VerifNewDcp(cfg, cl, cons, &couchbase.Version{Major: 7, Minor: 6}, &couchbase.BucketInfo{BucketType: "membase"})
+		d.SetMetadata(fm)
+		d.SetEventHandler(hand)
+		bus := godcp.VerifBus(d)
+		go func() { defer close(startDone); d.Start() }()
+		announce = func(total, num int) {
+			bus.Publish(helpers.MembershipChangedBusEventName, &membership.Model{MemberNumber: num, TotalMembers: total})
+		}
+		rebalance = func() {}
+		select {
+		case <-d.WaitUntilReady():
+		case <-time.After(20 * time.Second):
+			res.Note = "HARNESS: not ready"
+			return res
+		}
+		for i := 0; i < 2000 && !bus.HasCallback(helpers.MembershipChangedBusEventName); i++ {
+			time.Sleep(time.Millisecond)
+		}
+	} else if sc.Mode == "bus" {
 		cfg.Dcp.Group.Membership.Type = membership.DynamicMembershipType
 		d = godcp.VerifNewDcp(cfg, cl, cons, &couchbase.Version{Major: 7, Minor: 6}, &couchbase.BucketInfo{BucketType: "membase"})
 		d.SetMetadata(fm)
@@ -176,11 +200,11 @@ func c11Child(raw json.RawMessage) any {
 		// order of the records is the order in which the values became "the latest membership information"
 		nmu.Lock()
 		res.Notifs = append(res.Notifs, c11NotifRec{At: tick(), AtNs: time.Now().UnixNano(), Burst: bi, Lo: lo, Hi: hi, State: n.State})
-		if sc.Mode != "bus" {
+		if sc.Mode == "direct" {
 			announce(n.Total, n.Num)
 		}
 		nmu.Unlock()
-		if sc.Mode == "bus" {
+		if sc.Mode != "direct" {
 			announce(n.Total, n.Num) // bus mode: the publication is the notification itself (value + trigger)
 		}
 		rebalance()
@@ -236,18 +260,18 @@ func c11Child(raw json.RawMessage) any {
 		for _, f := range burst[1:] {
 			hasDuringClose = hasDuringClose || f.State == "during_close"
 		}
-		if hasDuringClose && sc.Mode == "direct" && leader.State == "idle" {
+		if hasDuringClose && sc.Mode != "bus" && leader.State == "idle" {
 			closeGate = make(chan struct{})
 			g := closeGate
 			cl.mu.Lock()
 			cl.onClose = func(uint16) { closeEntered <- struct{}{}; <-g }
 			cl.mu.Unlock()
 		}
-		if wantReopenBarrier && sc.Mode == "direct" && leader.State != "during_reopen" {
+		if wantReopenBarrier && sc.Mode != "bus" && leader.State != "during_reopen" {
 			armReopen()
 		}
 		// leader
-		if leader.State == "during_reopen" && sc.Mode == "direct" {
+		if leader.State == "during_reopen" && sc.Mode != "bus" {
 			// the previous burst's reopen is blocked inside OpenStream: this notification starts a new burst
 			wg.Add(1)
 			go func() { defer wg.Done(); notify(bi, leader) }()
@@ -314,7 +338,7 @@ func c11Child(raw json.RawMessage) any {
 						res.Note = "HARNESS: rebalance start never completed"
 						return res
 					}
-					if sc.Mode == "direct" {
+					if sc.Mode != "bus" {
 						time.Sleep(time.Until(last.Add(time.Duration(sc.DelayMs*ff.Frac/100) * time.Millisecond)))
 					}
 					wg.Add(1)
@@ -334,7 +358,7 @@ func c11Child(raw json.RawMessage) any {
 		if leader.State == "idle" && waitCb("ASStop", brs0+1, 10*time.Second) && cbCount("ASStart") == cbCount("ASStop") {
 			feedClosed(obsBefore)
 		}
-		if wantReopenBarrier && sc.Mode == "direct" {
+		if wantReopenBarrier && sc.Mode != "bus" {
 			select {
 			case <-reopenEntered:
 			case <-time.After(20 * time.Second):
@@ -580,7 +604,7 @@ func c11InF6Class(sc c11Scenario) bool {
 }
 
 func c11Gen(rt *rapid.T) c11Scenario {
-	sc := c11Scenario{Mode: rapid.SampledFrom([]string{"direct", "direct", "direct", "bus"}).Draw(rt, "mode"),
+	sc := c11Scenario{Mode: rapid.SampledFrom([]string{"direct", "direct", "direct", "bus", "busdelay", "busdelay"}).Draw(rt, "mode"),
 		DelayMs: rapid.SampledFrom([]int{60, 100, 160}).Draw(rt, "delay"), EndOnClose: rapid.Bool().Draw(rt, "endonclose")}
 	sc.Stored = rapid.SliceOfN(rapid.IntRange(0, 9), 1, 8).Draw(rt, "stored")
 	if sc.Mode == "bus" {
@@ -590,11 +614,14 @@ func c11Gen(rt *rapid.T) c11Scenario {
 	val := func(n *c11Notif) {
 		n.Total = rapid.IntRange(1, 4).Draw(rt, "total")
 		n.Num = rapid.IntRange(1, n.Total).Draw(rt, "num")
+		if sc.Mode == "busdelay" {
+			n.Total, n.Num = c11BusTotal, c11BusNum // the membership keeps its numbers; the notification still starts a cycle
+		}
 	}
 	for b := 0; b < nb; b++ {
 		var burst []c11Notif
 		lead := c11Notif{State: "idle"}
-		if b > 0 && sc.Mode == "direct" && rapid.IntRange(0, 2).Draw(rt, "reopenlead") == 0 {
+		if b > 0 && sc.Mode != "bus" && rapid.IntRange(0, 2).Draw(rt, "reopenlead") == 0 {
 			lead.State = "during_reopen"
 		}
 		val(&lead)
